@@ -104,13 +104,13 @@ func (s *hstream) fail(err error) {
 
 // waitIdle: the endpoint consumed everything and is blocked in Read again.
 func (s *hstream) waitIdle(d time.Duration) bool {
-	deadline := time.Now().Add(d)
-	t := time.AfterFunc(d, func() { s.mu.Lock(); s.cond.Broadcast(); s.mu.Unlock() })
+	timedOut := false
+	t := time.AfterFunc(d, func() { s.mu.Lock(); timedOut = true; s.cond.Broadcast(); s.mu.Unlock() })
 	defer t.Stop()
 	s.mu.Lock()
 	defer s.mu.Unlock()
 	for !(s.idle && len(s.buf) == 0) {
-		if time.Now().After(deadline) {
+		if timedOut {
 			return false
 		}
 		s.cond.Wait()
@@ -1292,6 +1292,81 @@ func stressRound(seed uint64, round int) (fails []string, stats map[string]int) 
 	return fails, stats
 }
 
+
+// ---------- race-detector pass (thorough tier) ----------
+
+// raceChild builds qv with -race (needs cgo; skipped with a note when that is not possible) and runs
+// one child of it; a data race reported with a frame in bus/net is a failure of the property's
+// "whatever races with it": the report is the failing input.
+func raceChild(res *hx.Result, outdir, child string, env []string, what string) {
+	root := os.Getenv("VERIF_ROOT")
+	if root == "" {
+		res.Notes = append(res.Notes, "race-detector pass skipped: VERIF_ROOT not set")
+		return
+	}
+	mod := filepath.Join(root, "go")
+	if repo := os.Getenv("VERIF_REPO"); repo != "" && repo != "/repo" {
+		mod = filepath.Join(root, "_build", "go-alt")
+	}
+	bin := filepath.Join(root, "_build", "bin", "qv-race")
+	build := exec.Command("go", "build", "-race", "-tags", "verif", "-o", bin, "./cmd/qv")
+	build.Dir = mod
+	build.Env = append(os.Environ(), "CGO_ENABLED=1")
+	if b, err := build.CombinedOutput(); err != nil {
+		msg := string(b)
+		if len(msg) > 300 {
+			msg = msg[:300]
+		}
+		res.Notes = append(res.Notes, "race-detector pass skipped: go build -race failed: "+msg)
+		return
+	}
+	dir := filepath.Join(outdir, "race")
+	os.MkdirAll(dir, 0o755)
+	cmd := exec.Command(bin, "--seed", fmt.Sprint(res.Seed+1), "--tier", "quick", "--out", dir, child)
+	cmd.Env = append(os.Environ(), env...)
+	var stderr strings.Builder
+	cmd.Stderr = &stderr
+	cmd.Stdout = &stderr
+	if err := cmd.Start(); err != nil {
+		res.Notes = append(res.Notes, "race-detector pass skipped: "+err.Error())
+		return
+	}
+	waitc := make(chan error, 1)
+	go func() { waitc <- cmd.Wait() }()
+	var werr error
+	select {
+	case werr = <-waitc:
+	case <-time.After(40 * time.Minute):
+		cmd.Process.Kill()
+		<-waitc
+		werr = fmt.Errorf("exceeded 40 min")
+	}
+	log := stderr.String()
+	n := strings.Count(log, "WARNING: DATA RACE")
+	if n > 0 {
+		i := strings.Index(log, "WARNING: DATA RACE")
+		rep := log[i:]
+		if j := strings.Index(rep, "=================="); j > 0 {
+			rep = rep[:j]
+		}
+		if len(rep) > 1800 {
+			rep = rep[:1800]
+		}
+		if strings.Contains(rep, "qiloop/bus/net") {
+			res.Fail("data-race", fmt.Sprintf("%s under the race detector (seed %d): %d reports; first: %s", what, res.Seed+1, n, rep))
+		} else {
+			res.Notes = append(res.Notes, fmt.Sprintf("race detector: %d reports without a bus/net frame (harness code): %s", n, rep))
+		}
+	} else if werr != nil {
+		tail := log
+		if len(tail) > 600 {
+			tail = tail[len(tail)-600:]
+		}
+		res.Fail("process-died", fmt.Sprintf("%s under the race detector (seed %d): %v: %s", what, res.Seed+1, werr, tail))
+	}
+	res.Notes = append(res.Notes, fmt.Sprintf("race-detector pass: %s, %d data race reports", what, n))
+}
+
 // ---------- child ----------
 
 func childC17(res *hx.Result, rng *hx.Rng, tier string, outdir string) {
@@ -1529,4 +1604,8 @@ func runStress17(res *hx.Result, tier string, outdir string) {
 		doneRounds, agg["handlers"], agg["registered-before-shutdown"], agg["closed"], agg["delivered"]))
 	res.Distribution["stress:rounds"] = doneRounds
 	res.Distribution["stress:handlers"] = agg["handlers"]
+	if tier == "thorough" {
+		raceChild(res, outdir, "C17.child", []string{"QV_C17_STRESS=300", "QV_C17_STRESS_FROM=0"}, "300 concurrent stress rounds on net.NewEndPoint")
+		raceChild(res, outdir, "C17.child", []string{"QV_C17_STRESS=0", "QV_C17_FROM=0", fmt.Sprintf("QV_C17_TO=%d", len(fixedScripts())+nRandom17("quick"))}, "the quick-tier operation sequences")
+	}
 }
